@@ -25,6 +25,7 @@ import (
 	"hash/fnv"
 	"os"
 	"os/exec"
+	"regexp"
 	"runtime"
 	"sort"
 	"strings"
@@ -123,6 +124,7 @@ type mon struct {
 	child bool
 	nsA   int64
 	nsB   int64
+	nsC   int64
 
 	mu     sync.Mutex
 	hashes map[string]string // eval key -> hash of first compilation outcome (compared with the child process)
@@ -354,33 +356,17 @@ func errClass(msg string) string {
 	return "other"
 }
 
-// zeroWeights blanks every split weight (chain is owned by the monitor at this point).
-func zeroWeights(ch *structs.CompiledDiscoveryChain) {
-	for _, n := range ch.Nodes {
-		if n == nil {
-			continue
-		}
-		for _, s := range n.Splits {
-			if s == nil {
-				continue
-			}
-			s.Weight = 0
-			if s.Definition != nil {
-				d := *s.Definition
-				d.Weight = 0
-				s.Definition = &d
-			}
-		}
-	}
-}
+var weightRe = regexp.MustCompile(`Weight:[-+0-9.e]+ ?`)
+
+// stripWeights removes every split weight from a rendered chain (a weight of 0 is not rendered at
+// all, so removal - not blanking - makes "0" and "0.01" comparable).
+func stripWeights(text string) string { return weightRe.ReplaceAllString(text, "") }
 
 // diffClass names WHAT differs between two outcomes of the same input (-> violation key).
 func diffClass(a, b outcome) string {
 	switch {
 	case a.kind == "ok" && b.kind == "ok":
-		zeroWeights(a.chain)
-		zeroWeights(b.chain)
-		if renderChain(a.chain) == renderChain(b.chain) {
+		if stripWeights(a.text) == stripWeights(b.text) {
 			return "flattenAdjacentSplitterNodes:split-weights-depend-on-map-order"
 		}
 		return "compile:nondeterministic:chain-differs"
@@ -428,7 +414,7 @@ func caseSeed(cd caseDef) uint64 {
 
 func (m *mon) record(key, text string) {
 	m.mu.Lock()
-	m.hashes[key] = core.Hash(text)
+	m.hashes[key] = core.Hash(text) + "\t" + core.Hash(stripWeights(text))
 	m.order = append(m.order, key)
 	m.mu.Unlock()
 }
@@ -453,6 +439,13 @@ func (m *mon) partA(cd caseDef) {
 		run.CountN("entries_valid", len(es))
 	}
 	set0 := buildSet(es, nil)
+	sets := []*configentry.DiscoveryChainSet{set0, set0}
+	if !m.child {
+		for k := 2; k < repeats; k++ {
+			fes, _ := prep(cd.mk())
+			sets = append(sets, buildSet(fes, cr.Perm(len(fes))))
+		}
+	}
 	for _, svc := range svcs {
 		for ci, ctx := range ctxs {
 			if m.stop() {
@@ -480,12 +473,7 @@ func (m *mon) partA(cd caseDef) {
 			// ---- determinism: same set object again, then fresh sets built in permuted orders
 			outs := []outcome{first}
 			for k := 1; k < repeats; k++ {
-				set := set0
-				if k >= 2 {
-					fes, _ := prep(cd.mk())
-					set = buildSet(fes, cr.Perm(len(fes)))
-				}
-				o := compileOnce(ctx.req(svc, set))
+				o := compileOnce(ctx.req(svc, sets[k]))
 				if o.kind == "timeout" {
 					m.hang("Compile", inputDesc+fmt.Sprintf(" (repetition %d; an earlier one returned)", k), witness())
 					break
@@ -646,7 +634,7 @@ type wstep struct {
 
 // applyOp applies one upsert/delete; accepted=false means the FSM returned an error. dead=true: the
 // replica must not be used any more (hang or panic inside the apply).
-func (m *mon) applyOp(r *fsmkit.Replica, idx uint64, del bool, e structs.ConfigEntry, hist *[]wstep, caseID string) (accepted, dead bool) {
+func (m *mon) applyOp(r *fsmkit.Replica, cur **dump.Dump, idx uint64, del bool, e structs.ConfigEntry, hist *[]wstep, caseID string) (accepted, dead bool) {
 	op := structs.ConfigEntryUpsert
 	name := "upsert"
 	if del {
@@ -657,12 +645,12 @@ func (m *mon) applyOp(r *fsmkit.Replica, idx uint64, del bool, e structs.ConfigE
 	if !del {
 		st.Entry = e
 	}
-	var before *dump.Dump
-	cr := bounded(func() { before = dump.Of(r.State()) })
-	if cr.timedOut || cr.panicMsg != "" {
-		m.run.Inconclusive("dump of the store failed: " + cr.panicMsg)
-		return false, true
+	// *cur caches the dump of the store as of the last accepted step (a rejected step must leave it valid)
+	if *cur == nil {
+		*cur = dump.Of(r.State())
 	}
+	before := *cur
+	var cr callRes
 	var v any
 	req := &structs.ConfigEntryRequest{Op: op, Entry: e}
 	cr = bounded(func() { v = r.Apply(idx, structs.ConfigEntryRequestType, req) })
@@ -693,6 +681,7 @@ func (m *mon) applyOp(r *fsmkit.Replica, idx uint64, del bool, e structs.ConfigE
 		return false, false
 	}
 	st.Result = fmt.Sprintf("accepted (%v)", v)
+	*cur = nil
 	*hist = append(*hist, st)
 	m.run.Count(name + "s_accepted")
 	return true, false
@@ -734,16 +723,11 @@ func (m *mon) checkStore(s *state.Store, extra evalCtx, hist []wstep, caseID str
 		for ci, ctx := range ctxs {
 			o := storeCompile(s, svc, ctx)
 			run.Count("post_write_compilations")
-			where := "dc1"
-			if ci == 1 {
-				where = "other-dc"
-			} else if ci == 2 {
-				where = "with-overrides"
-			}
 			desc := fmt.Sprintf("after accepted %s of %s/%s chain %q (context %s) — case %s, step %d", last.Op, last.Kind, last.Name, svc, core.JSON(ctx), caseID, len(hist))
 			w := func() map[string]any {
 				return map[string]any{"case": caseID, "history": hist, "chain": svc, "context": ctx, "result": o.text}
 			}
+			failed := false
 			switch o.kind {
 			case "timeout":
 				m.hang("ServiceDiscoveryChain", desc, w())
@@ -752,17 +736,40 @@ func (m *mon) checkStore(s *state.Store, extra evalCtx, hist []wstep, caseID str
 				ww := w()
 				ww["stack"] = o.stack
 				run.Violation("C15:panic:"+panicSite(o.stack), "ServiceDiscoveryChain panicked "+desc+": "+o.text, ww)
-				continue
+				failed = true
 			case "graph-error", "other-error":
-				run.Violation("C15:write:accepted-but-uncompilable:"+where+":"+errClass(o.err.Error()),
+				failed = true
+				cls := errClass(o.err.Error())
+				switch {
+				case ci == 0 && last.Kind != structs.ProxyDefaults && svc != last.Name && !linksTo(es, svc, last.Name):
+					// the chain depends on the written entry only through another service's entries
+					cls = "indirectly-affected-chain-not-validated"
+				case ci == 0:
+				case ci == 1:
+					cls = "only-in-other-dc:" + cls
+				case ctx.OvProto != "" && !structs.IsProtocolHTTPLike(ctx.OvProto) && shadowed(es, svc):
+					// the override switches the router/splitter of this service off, which exposes its
+					// resolver: an entry the write-time validation never compiled
+					cls = "protocol-override-exposes-shadowed-resolver"
+				default:
+					cls = "with-overrides:" + cls
+				}
+				run.Violation("C15:write:accepted-but-uncompilable:"+cls,
 					fmt.Sprintf("write was accepted but a mentioned chain no longer compiles: %s: %v", desc, o.err), w())
-				continue
+			}
+			if failed {
+				// the store is now in a state the property excludes: later steps of this history
+				// could only report consequences of this one
+				return true
 			}
 			for _, f := range walk(o.chain) {
 				run.Violation("C15:graph:"+f.class, f.what+" — "+desc, w())
 			}
 			for _, f := range fixedPoints(o.chain, res) {
 				run.Violation("C15:redirect:"+f.class, f.what+" — "+desc, w())
+			}
+			if ci != 0 {
+				continue // the repeated compilation is done for the plain dc1 context
 			}
 			o2 := storeCompile(s, svc, ctx)
 			if o2.kind == "timeout" {
@@ -775,6 +782,31 @@ func (m *mon) checkStore(s *state.Store, extra evalCtx, hist []wstep, caseID str
 				ww["second_result"] = o2.text
 				run.Violation("C15:"+diffClass(o, o2), fmt.Sprintf("two compilations from the same store differ %s: %s", desc, d), ww)
 			}
+		}
+	}
+	return false
+}
+
+// linksTo: some router/splitter/resolver entry of svc names target directly.
+func linksTo(es []structs.ConfigEntry, svc, target string) bool {
+	for _, e := range es {
+		if e.GetName() != svc || e.GetKind() == structs.ServiceDefaults {
+			continue
+		}
+		for _, x := range mentioned([]structs.ConfigEntry{e}) {
+			if x == target {
+				return true
+			}
+		}
+	}
+	return false
+}
+
+// shadowed: the service has a router or splitter (so its own resolver is not the start of its chain)
+func shadowed(es []structs.ConfigEntry, svc string) bool {
+	for _, e := range es {
+		if e.GetName() == svc && (e.GetKind() == structs.ServiceRouter || e.GetKind() == structs.ServiceSplitter) {
+			return true
 		}
 	}
 	return false
@@ -810,7 +842,8 @@ func (m *mon) partB(cd caseDef) {
 	if n == 0 {
 		return
 	}
-	fresh := func() []structs.ConfigEntry { es, _ := prep(cd.mk()); return es }
+	// the FSM decodes its own copy of every request: the monitor's entry objects are never retained by
+	// a store, so one prepared set serves all orders
 	extra := randCtx(cr)
 	extra.TD = ""
 
@@ -824,14 +857,15 @@ func (m *mon) partB(cd caseDef) {
 			id[i] = i
 		}
 		perms = append(perms, id)
-		for i := 0; i < core.N(3, 7); i++ {
+		for i := 0; i < core.N(2, 7); i++ {
 			perms = append(perms, cr.Perm(n))
 		}
 	}
 
 	type final struct {
 		perm   []int
-		chains string
+		labels []string
+		outs   []outcome
 	}
 	groups := map[string]final{}
 	var first *fsmkit.Replica
@@ -842,8 +876,9 @@ func (m *mon) partB(cd caseDef) {
 			break
 		}
 		r := newReplica()
-		es := fresh()
+		es := es0
 		var hist []wstep
+		var cur *dump.Dump
 		dead := false
 		acc := make([]byte, n)
 		for i := range acc {
@@ -852,7 +887,7 @@ func (m *mon) partB(cd caseDef) {
 		idx = 10
 		for _, i := range perm {
 			idx++
-			ok, d := m.applyOp(r, idx, false, es[i], &hist, cd.ID)
+			ok, d := m.applyOp(r, &cur, idx, false, es[i], &hist, cd.ID)
 			if d {
 				dead = true
 				break
@@ -876,7 +911,8 @@ func (m *mon) partB(cd caseDef) {
 			run.Count("insertion_orders_fully_accepted")
 		}
 		// final chains of this order
-		var sb strings.Builder
+		var labels []string
+		var fouts []outcome
 		for _, svc := range svcs {
 			for _, ctx := range storeCtxs {
 				o := storeCompile(r.State(), svc, ctx)
@@ -885,7 +921,8 @@ func (m *mon) partB(cd caseDef) {
 					dead = true
 					break
 				}
-				fmt.Fprintf(&sb, "## %s@%s\n%s\n", svc, ctx.DC, o.text)
+				labels = append(labels, svc+"@"+ctx.DC)
+				fouts = append(fouts, o)
 			}
 			if dead {
 				break
@@ -894,12 +931,15 @@ func (m *mon) partB(cd caseDef) {
 		if !dead {
 			g, seen := groups[string(acc)]
 			if !seen {
-				groups[string(acc)] = final{perm, sb.String()}
+				groups[string(acc)] = final{perm, labels, fouts}
 			} else {
 				run.Count("insertion_order_pairs_compared")
-				if g.chains != sb.String() {
-					run.Violation("C15:store-order:chains-differ", fmt.Sprintf("the same accepted entries (mask %s) written in order %v and in order %v compile differently: %s — case %s", acc, g.perm, perm, firstDiff(g.chains, sb.String()), cd.ID),
-						map[string]any{"case": cd.ID, "entries": entriesWitness(es0), "order_a": g.perm, "order_b": perm, "chains_a": g.chains, "chains_b": sb.String()})
+				for k := range fouts {
+					if g.outs[k].text != fouts[k].text {
+						run.Violation("C15:"+diffClass(g.outs[k], fouts[k]), fmt.Sprintf("the same accepted entries (mask %s) written into fresh stores in order %v and in order %v compile differently for chain %s: %s — case %s", acc, g.perm, perm, labels[k], firstDiff(g.outs[k].text, fouts[k].text), cd.ID),
+							map[string]any{"case": cd.ID, "entries": entriesWitness(es0), "order_a": g.perm, "order_b": perm, "chain": labels[k], "result_a": g.outs[k].text, "result_b": fouts[k].text})
+						break
+					}
 				}
 			}
 		}
@@ -913,14 +953,13 @@ func (m *mon) partB(cd caseDef) {
 	// ---- continue the first order with deletes / updates / re-creations
 	if first != nil && !m.stop() {
 		poolSeed := cr.U64()
-		pool := func() []structs.ConfigEntry {
-			a := fresh()
-			b, _ := prep(genSet(core.NewRand(poolSeed)))
-			return append(a, b...)
-		}
-		np := len(pool())
+		variants, _ := prep(genSet(core.NewRand(poolSeed)))
+		thePool := append(append([]structs.ConfigEntry{}, es0...), variants...)
+		pool := func() []structs.ConfigEntry { return thePool }
+		np := len(thePool)
 		steps := core.N(6, 10)
 		hist := firstHist
+		var firstCur *dump.Dump
 		for sIdx := 0; sIdx < steps && !m.stop(); sIdx++ {
 			idx++
 			p := pool()
@@ -939,7 +978,7 @@ func (m *mon) partB(cd caseDef) {
 					}
 				}
 			}
-			ok, dead := m.applyOp(first, idx, del, e, &hist, cd.ID)
+			ok, dead := m.applyOp(first, &firstCur, idx, del, e, &hist, cd.ID)
 			if dead {
 				break
 			}
@@ -1004,7 +1043,7 @@ func buildCases(rng *core.Rand) []caseDef {
 	for i := off; i < len(en); i += stride {
 		cases = append(cases, en[i])
 	}
-	nr := core.N(2600, 80000)
+	nr := core.N(2000, 50000)
 	for i := 0; i < nr; i++ {
 		cases = append(cases, randomCase(i, rng.Fork(uint64(i)).U64()))
 	}
@@ -1072,6 +1111,36 @@ func TestZZVerifC15(t *testing.T) {
 	for i := firstRand; i < firstRand+pre && i < len(cases); i++ {
 		doCase(cases[i])
 	}
+	// Part C scenarios (quick: every 8th, offset from the seed)
+	scs := scenarios()
+	sstride, soff := 1, 0
+	if !core.Thorough() {
+		sstride = 8
+		soff = rng.Fork(0xC).Intn(sstride)
+	}
+	var jobs []func()
+	for i := range cases {
+		if i >= firstRand && i < firstRand+pre {
+			continue
+		}
+		cd := cases[i]
+		jobs = append(jobs, func() { doCase(cd) })
+	}
+	nsc := 0
+	for i := soff; i < len(scs); i += sstride {
+		sc := scs[i]
+		nsc++
+		jobs = append(jobs, func() {
+			if m.stop() {
+				return
+			}
+			core.Progress("C15", sc.ID)
+			t0 := time.Now()
+			m.partC(sc)
+			atomic.AddInt64(&m.nsC, int64(time.Since(t0)))
+		})
+	}
+	run.Extra("dependency_scenario_space", len(scs))
 	workers := core.N(4, 14)
 	var wg sync.WaitGroup
 	var next int64 = -1
@@ -1081,13 +1150,10 @@ func TestZZVerifC15(t *testing.T) {
 			defer wg.Done()
 			for {
 				i := int(atomic.AddInt64(&next, 1))
-				if i >= len(cases) {
+				if i >= len(jobs) {
 					return
 				}
-				if i >= firstRand && i < firstRand+pre {
-					continue
-				}
-				doCase(cases[i])
+				jobs[i]()
 			}
 		}()
 	}
@@ -1126,7 +1192,13 @@ func TestZZVerifC15(t *testing.T) {
 				}
 				cmp++
 				if mine != kv[1] {
-					run.Violation("C15:compile:nondeterministic:across-processes", "evaluation "+kv[0]+" (case|chain|context#) compiled differently in a child process (same seed, same generator); rerun with the same VERIF_SEED to reproduce",
+					// hash of the outcome <tab> hash of the outcome without split weights
+					key := "C15:compile:nondeterministic:across-processes"
+					a, b := strings.SplitN(mine, "\t", 2), strings.SplitN(kv[1], "\t", 2)
+					if len(a) == 2 && len(b) == 2 && a[1] == b[1] {
+						key = "C15:flattenAdjacentSplitterNodes:split-weights-depend-on-map-order"
+					}
+					run.Violation(key, "evaluation "+kv[0]+" (case|chain|context#) compiled differently in a child process (same seed, same generator); rerun with the same VERIF_SEED to reproduce",
 						map[string]any{"evaluation": kv[0], "parent_hash": mine, "child_hash": kv[1]})
 				}
 			}
@@ -1143,6 +1215,7 @@ func TestZZVerifC15(t *testing.T) {
 	run.Extra("bound", bound.String())
 	run.Extra("cpu_part_a", time.Duration(m.nsA).String())
 	run.Extra("cpu_part_b", time.Duration(m.nsB).String())
+	run.Extra("cpu_part_c", time.Duration(m.nsC).String())
 
 	run.FloorDistinct("compile-outcome", 2)
 	run.FloorDistinct("graph-error-class", 5)
@@ -1157,6 +1230,8 @@ func TestZZVerifC15(t *testing.T) {
 	run.Floor("deletes_rejected", 30)
 	run.Floor("insertion_order_pairs_compared", 300)
 	run.Floor("evaluations_compared_with_child_process", 5000)
+	run.Floor("dependency_scenarios_both_links_stored", 300)
+	run.Floor("dependency_scenarios_modification_rejected", 100)
 	if run.Finish() == 1 {
 		t.Fail()
 	}
